@@ -136,6 +136,11 @@ func Plan(l *Lab, id CaseID, self *Signer) (*MsgPlan, string) {
 		pl.Owner, pl.Output, pl.Auth = op, out, nil
 		if exists {
 			pl.Auth = []*Signer{op, out}
+			if id.Target == "noncustodial-redirect" {
+				// the stake and its rewards belong to the output address: only that address may name a new
+				// output ("no stake is redirected by a transaction its owner's authorized keys did not sign")
+				pl.Auth = []*Signer{out}
+			}
 		}
 	case fsm.MessageUnstakeName, fsm.MessagePauseName, fsm.MessageUnpauseName:
 		addr, op, out, exists := val()
